@@ -688,6 +688,21 @@ def check_item(chk, report, ctx, blocks, isel, it, plain, guess, default_mime, e
 def replay(path):
     with open(path) as f:
         rep = json.load(f)
+    if rep.get("kind") == "gplus-history":
+        res = impl_run([{"op": "c15_history", "tree": rep["world"]["tree"], "config": rep["world"].get("config"),
+                         "steps": rep["steps"]}])
+        if not res[0]["ok"]:
+            print(res[0]["err"])
+            return 2
+        last = [st for st in res[0]["res"]["steps"] if "results" in st][-1]["results"][rep["request_index_in_last_step"]]
+        out = gen.mask_times(last["out"].encode("latin-1")).decode("utf-8", "surrogateescape")
+        print("steps   :", [(st["op"], st.get("path"), st.get("keep_mtime")) for st in rep["steps"]])
+        print("request :", repr(rep["request_latin1"]))
+        print("response:", repr(out[:1500]))
+        print("fresh   :", repr(rep.get("fresh_process_response_latin1")))
+        same = out[:1500] == rep["response_latin1"]
+        print("same behaviour as recorded:", same)
+        return 1 if same else 0
     if rep.get("kind") != "gplus":
         print("replay: not a replayable Gopher+ case")
         return 2
